@@ -27,9 +27,10 @@ type Batch struct {
 	RaceProp        string // property a race report in this batch is filed under (default C17)
 	RaceOwn         string // ... but only if its signature mentions this substring
 	Prepare         func(overlay string)
-	Bubble          bool // back end B: built with go1.26.8 (testing/synctest), one P, no async preemption
-	GenSim          bool // needs the generator built as a simulated process (cmd/gensim + overlay)
-	Family          bool // needs the generated binding family (generator built from /repo's current tree)
+	Module          string // "" = the v2 module; "root" = the root module copy of the same code (scenario sources are import-path parametric)
+	Bubble          bool   // back end B: built with go1.26.8 (testing/synctest), one P, no async preemption
+	GenSim          bool   // needs the generator built as a simulated process (cmd/gensim + overlay)
+	Family          bool   // needs the generated binding family (generator built from /repo's current tree)
 	Real, Stub      []string
 }
 
@@ -69,6 +70,8 @@ func init() {
 				Real: []string{"v2/d2/lazymap (LoadOrStore, Load, Store; only its sync import is swapped for the scheduler-aware shim, which calls the real sync.Map / sync.WaitGroup)"},
 				Stub: []string{"goroutine scheduling (token kernel)"}},
 			{Pkg: "scen/s1", Scen: "lazymap", Cfg: "deepcompute=1,keys=1", Seams: seamsS1, RaceProp: "C18", RaceOwn: "lazymap", Quick: 10000, Thorough: 500000, ThoroughSecs: 600},
+			{Pkg: "scen/s1", Scen: "lazymap", Cfg: "", Module: "root", Seams: Seams{Sync: "d2/lazymap"}, RaceProp: "C18", RaceOwn: "lazymap", Quick: 10000, Thorough: 500000, ThoroughSecs: 600,
+				Real: []string{"d2/lazymap of the root module (same scenario, import path switched)"}},
 		},
 		Rule: "each run draws 2-4 client tasks x 1-3 operations from {LoadOrStore(k,f), Load(k), Store(k,v)} over 2 keys (every value unique; f yields inside the computation) and one schedule (uniform / PCT priorities / sticky) from the choice stream; yield points are the shim's sync.Map and WaitGroup operations. A case is non-trivial and distinct by its (workload text) — two runs with the same operations but different schedules count once here; distinct schedules are reported separately as distinct_schedules (hash of the executed (task, yield point) sequence).",
 		Assume: []string{
@@ -88,6 +91,9 @@ func init() {
 				Stub: []string{"ZooKeeper and TreeCache (replaced by a pre-filled event channel, as in the repository's own tests)", "math/rand source behind d2.rng (values from the choice stream incl. exactly 0 and 1-2^-53)", "Go map iteration order in package d2 (permutation from the choice stream)", "goroutine scheduling (token kernel)"}},
 			s3b("", 1500, 150000),
 			s3b("tap=1", 1500, 150000),
+			s3b("tap=1,hold=1", 2500, 250000),
+			{Pkg: "scen/s2", Scen: "feed", Cfg: "", Module: "root", Seams: seamsS2, NoRace: true, Quick: 15000, Thorough: 1000000, ThoroughSecs: 900,
+				Real: []string{"d2 of the root module (update loops, snapshots, host selection; same scenario, import path switched)"}},
 		},
 		Rule: "each run draws a service definition (6 prioritized-scheme lists), 0-2 pre-applied and 0-8 in-run announcement events over 3 znodes from {set (1-3 hosts x scheme x weight incl. 0 and non-dyadic), delete, malformed JSON, weight-less partition-only, root-path}, 0-2 service updates and 0-3 resolver tasks x 1-3 resolutions, plus the schedule, map orders and random values. A case is distinct by its (pre events, in-run events, service sequence) text and non-trivial when it has at least one event; schedules are counted separately.",
 		Assume: []string{
@@ -121,7 +127,9 @@ func init() {
 	})
 }
 
-var seamsS4 = Seams{}
+// S4: every repo package that imports sync (today: d2, lazymap, restlicodec's registry; tomorrow: whatever a
+// change adds, e.g. a sync.Pool in the client) gets the scheduler-aware shim
+var seamsS4 = Seams{Sync: "all"}
 
 var s4Real = []string{"generated clients and server adapters (generated at check time by the generator from /repo's working tree)", "v2/restli client path (newRequest, formatQueryUrl, tunnelling, Do, DoAndUnmarshal), v2/restli handler/router/filters/Register* adapters", "v2/restlicodec readers and writers, batchkeyset, generated marshalers", "net/http: Client above the transport, Request.Write / ReadRequest / Response.Write / ReadResponse, ServeMux"}
 var s4Stub = []string{"TCP and net/http's per-connection server loop (simulated transport)", "resource implementations (generated MockResource driven by the choice stream)", "goroutine scheduling (token kernel)"}
@@ -167,7 +175,8 @@ func init() {
 
 func init() {
 	reg(&PropSpec{
-		ID: "C08",
+		ID:   "C08",
+		Also: []string{"C16"}, // "per-key errors in batch responses arrive under the right key" is checked by the key-correlation oracle
 		Batches: []Batch{
 			s4b("rpc", "outcomes=errors", 20000, 1500000),
 			s4b("rpc", "outcomes=errors,mounts=bare+mux+prefix,strings=benign", 8000, 500000),
@@ -235,7 +244,7 @@ func init() {
 	})
 }
 
-var seamsCanon = Seams{MapOrder: "all"}
+var seamsCanon = Seams{MapOrder: "all", Sync: "all"}
 
 func init() {
 	cb := func(cfg string, q, t int) Batch {
